@@ -93,7 +93,7 @@ int main(void)
     # the groups of SMT obligations are built concurrently (each runs clang on its own translation units)
     from concurrent.futures import ThreadPoolExecutor
     with ThreadPoolExecutor(max_workers=5) as ex:
-        parts = [f.result() for f in [ex.submit(pred_smt.build), ex.submit(step_smt.build), ex.submit(adv_smt.build), ex.submit(interp_smt.build), ex.submit(mt_smt.build)]]
+        parts = [f.result() for f in [ex.submit(pred_smt.build), ex.submit(step_smt.build), ex.submit(adv_smt.build), ex.submit(interp_smt.build), ex.submit(mt_smt.build, tier)]]
     vcs = [v for pv, _ in parts for v in pv]
     fns = [f for _, pf in parts for f in pf]
     return {
